@@ -1,0 +1,30 @@
+//go:build verif
+
+package tassa
+
+// Contracts for the deductive checker in /verif (comment-only; compiled only under the verif tag).
+
+// nder(f, k): the k-th formal derivative of the polynomial f
+//@ ghost func nder(f V, k Int) V
+//@ theory tassa
+//@ axiom NDer0: forall f V :: nder(f, 0) == f
+//@ axiom NDerS: forall f V, k Int :: k >= 0 ==> nder(f, k+1) == as(nder(f, k), *polynomials.Polynomial).Derivative()
+//@ end
+
+// Hierarchical (Tassa) dealing: every holder of level l receives the value at its own identifier of the T_{l-1}-th
+// derivative of the dealer polynomial f (T_{-1} = 0), where T_{l-1} is the threshold of the PREVIOUS level: the
+// derivative order is counted from f itself for every level (not accumulated across levels), and the polynomial that
+// is returned is the one the shares were computed from.
+//@ func (*Scheme).DealAndRevealDealerFunc
+//@   property C02
+//@   uses tassa
+//@   ghostvar lv int
+//@   ensures err == nil ==> result1 == dealerFunc
+//@   loop range(s.AccessStructure().Levels())
+//@     invariant d == ite($i == 0, 0, s.AccessStructure().Levels()[$i-1].Threshold()) && s.accessStructure == old(s.accessStructure)
+//@   loop range(d)
+//@     invariant p == nder(dealerFunc.Clone(), $i)
+//@   loop range(level.Shareholders().Iter())
+//@     invariant p == nder(dealerFunc.Clone(), d) && d == ite(lv == 0, 0, s.AccessStructure().Levels()[lv-1].Threshold())
+//@   ghostset before "for range d {": lv = $i
+//@   assert before "shareValue := p.Eval(s.field.FromUint64(uint64(id)))": p == nder(dealerFunc.Clone(), ite(lv == 0, 0, s.AccessStructure().Levels()[lv-1].Threshold()))
